@@ -128,31 +128,41 @@ inductive SerRes
   | ok (buf : Bytes) (auth' : Bytes)   -- packet and the message's authenticator afterwards (updated for Accounting-Request)
 deriving DecidableEq, Repr
 
+def attrsSize (m : Msg) : Nat := (m.attrs.map fun a => 2 + a.v.length).sum
+
+/-- the packet as first laid out by `radmsg2buf`: header ‖ msg.auth ‖ attributes -/
+def rawPacket (m : Msg) : Bytes :=
+  m.code :: m.id :: beEnc 2 (20 + attrsSize m) ++ m.auth ++ attrsBytes m.attrs
+
+/-- Message-Authenticator step: the LAST attribute of type 80 gets
+    HMAC-MD5(packet with that value zeroed); 16 octets are written whatever the
+    attribute's length (`none` = the write runs past the buffer). -/
+def stage1 (H : Hashes) (m : Msg) (sec : Bytes) : Option Bytes :=
+  match lastMsgAuthPos m.attrs 20 none with
+  | none => some (rawPacket m)
+  | some pos =>
+    if pos + 16 > 20 + attrsSize m then none
+    else
+      let z := splice (rawPacket m) pos (zeros 16)
+      some (splice z pos (H.hmacMd5 sec z))
+
+/-- the codes `_radsign` is applied to -/
+def signedCode (c : UInt8) : Bool := c = 2 || c = 3 || c = 11 || c = 5 || c = 4 || c = 42 || c = 45
+
 /-- `radmsg2buf(msg, secret, secret_len, &buf)` -/
 def serialize (H : Hashes) (m : Msg) (secret : Option Bytes) : SerRes :=
-  let size := 20 + (m.attrs.map fun a => 2 + a.v.length).sum
-  if size > maxLen then .fail
+  if 20 + attrsSize m > maxLen then .fail
   else
-    let buf0 := m.code :: m.id :: beEnc 2 size ++ m.auth ++ attrsBytes m.attrs
     match secret with
-    | none => .ok buf0 m.auth
+    | none => .ok (rawPacket m) m.auth
     | some sec =>
-      let step1 : Option Bytes :=
-        match lastMsgAuthPos m.attrs 20 none with
-        | none => some buf0
-        | some pos =>
-          if pos + 16 > size then none
-          else
-            let z := splice buf0 pos (zeros 16)
-            some (splice z pos (H.hmacMd5 sec z))
-      match step1 with
+      match stage1 H m sec with
       | none => .fault
-      | some buf1 =>
-        if m.code = 2 ∨ m.code = 3 ∨ m.code = 11 ∨ m.code = 5 ∨ m.code = 4 ∨ m.code = 42 ∨ m.code = 45 then
-          let sig := H.md5 (buf1 ++ sec)
-          let buf2 := splice buf1 4 sig
-          .ok buf2 (if m.code = 4 then sig else m.auth)
-        else .ok buf1 m.auth
+      | some b1 =>
+        if signedCode m.code then
+          let sig := H.md5 (b1 ++ sec)
+          .ok (splice b1 4 sig) (if m.code = 4 then sig else m.auth)
+        else .ok b1 m.auth
 
 /-- `radmsg_add`: rejects values longer than 253 -/
 def addOk (a : Tlv) : Bool := a.v.length ≤ maxAttrValueLen
